@@ -31,13 +31,14 @@ DEVIATIONS = {
     # repaired by a fix: commit; with the name in Deviations layer I models the pinned behaviour and TLC
     # must find a counterexample (its shortest one is replayed on the real code, which must now be accepted)
     'mru_pop_empty': ('C05', dict(ALG='mru', MAXSIZE=1, NARCH=1, OPS={'call', 'load', 'dump'}, ARGS={1, 2, 3}, DEPTH=6)),
+    'mru_purge_leaves_stale_use': ('C05', dict(ALG='mru', MAXSIZE=1, PURGE=True, NARCH=1, OPS={'call', 'loadk', 'arch_off'}, ARGS={1, 2, 3}, DEPTH=6)),
     'no_clear_keeps_cache': ('C15', dict(ALG='no', MAXSIZE=0, NARCH=1, OPS={'call', 'load', 'clear'}, ARGS={1, 2}, DEPTH=5)),
-    'safe_no_load_outside_try': ('C16', dict(ALG='no', MAXSIZE=0, NARCH=1, SAFE=True, OPS={'call'}, ARGS={1, 9}, DEPTH=3)),
+    'safe_no_load_outside_try': ('C16', dict(ALG='no', MAXSIZE=0, NARCH=1, SAFE=True, OPS={'call'}, ARGS={1, 10}, DEPTH=3)),
 }
 
 
 def base_constants(**kw):
-    c = dict(ALG='lru', MAXSIZE=2, PURGE=False, SAFE=False, QMULT=10, NX=3,
+    c = dict(ALG='lru', MAXSIZE=2, PURGE=False, SAFE=False, QMULT=10, NX=4,
              ARGS={1, 2, 3, 4}, OPS={'call'}, NARCH=0, DEPTH=8, Deviations=set(), Props=set())
     c.update(kw)
     return c
@@ -424,7 +425,7 @@ def plan_common(run, pid, algs, ops, args, narchs=(0, 1), purges=(False,), safes
                 for purge in (purges if (narch and alg not in ('no', 'inf')) else (False,)):
                     for safe in safes:
                         mcs.append(base_constants(ALG=alg, MAXSIZE=ms, PURGE=purge, SAFE=safe, QMULT=qmult_exh,
-                                                  ARGS=set(args) | ({run_unkey(3)} if safe else set()),
+                                                  ARGS=set(args) | ({run_unkey(4)} if safe else set()),
                                                   OPS=set(ops), NARCH=narch,
                                                   DEPTH=depth_t if thorough else depth_q, Props={pid}))
     if not thorough and len(mcs) > 12:
@@ -440,7 +441,7 @@ def plan_common(run, pid, algs, ops, args, narchs=(0, 1), purges=(False,), safes
                 for ms in (maxsizes if alg not in ('no', 'inf') else (2,)):
                     purge = run.rng.choice(list(purges)) if narch else False
                     gens.append(base_constants(ALG=alg, MAXSIZE=ms, PURGE=purge, SAFE=safe, QMULT=10,
-                                               ARGS=set(args) | ({run_unkey(3)} if safe else set()),
+                                               ARGS=set(args) | ({run_unkey(4)} if safe else set()),
                                                OPS=set(ops), NARCH=narch))
     num = sim_num[1] if thorough else sim_num[0]
     dep = sim_depth[1] if thorough else sim_depth[0]
@@ -478,7 +479,7 @@ KM_STD = [('str', True, False), ('hash-md5', True, False), ('default',), ('raw',
           ('hash-sha1', False, True), ('pickle-repr', False, False), ('raw', True, True), ('str-repr', True, False)]
 
 
-def py_cfg(module, alg, maxsize, backend, keymap, purge=False, how='kw', variant='plain', ni=1, unkey=False, nx=3):
+def py_cfg(module, alg, maxsize, backend, keymap, purge=False, how='kw', variant='plain', ni=1, unkey=False, nx=4):
     cfg = {'module': module, 'alg': alg, 'maxsize': maxsize, 'how': how, 'purge': purge, 'backend': backend,
            'keymap': keymap, 'nx': nx, 'ni': ni, 'na': 3 if ni > 1 else 2, 'unkey': unkey, 'variant': variant,
            'origin': 'python'}
@@ -498,7 +499,7 @@ def compatible(backend, keymap, module):
 
 
 def scenario_random(run, algs, modules, backends, nseq, length, profile='mixed', maxsizes=(1, 2, 3),
-                    purges=(False, True), variants=('plain',), nargs=8, keymaps=None):
+                    purges=(False, True), variants=('plain',), nargs=9, keymaps=None, nx=4):
     rng = run.rng
     keymaps = keymaps or KM_STD
     for _ in range(nseq):
@@ -513,8 +514,8 @@ def scenario_random(run, algs, modules, backends, nseq, length, profile='mixed',
         if not compatible(backend, km, module):
             km = ('str', True, False)
         cfg = py_cfg(module, alg, rng.choice(list(maxsizes)), backend, km, purge=rng.choice(list(purges)),
-                     variant=rng.choice(list(variants)))
-        ops = cd.random_ops(rng, length, cfg, nargs, profile)
+                     variant=rng.choice(list(variants)), nx=nx)
+        ops = cd.random_ops(rng, length, cfg, nargs + (nx - 4), profile)
         run.jobs.append((cfg, ops, None))
 
 
@@ -527,11 +528,11 @@ def scenario_second_instance(run, nseq, length):
         backend = rng.choice(['dictarch', 'file', 'dir', 'sql'])
         km = rng.choice([('str', True, False), ('hash-md5', True, False), ('str', True, True)])
         cfg = py_cfg(module, alg, rng.choice([1, 2]), backend, km, purge=rng.random() < 0.3, ni=2)
-        ops = cd.random_ops(rng, length // 2, cfg, 6, 'nobulk')
+        ops = cd.random_ops(rng, length // 2, cfg, 7, 'nobulk')
         ops.append({'op': 'dump'} if rng.random() < 0.7 else {'op': 'info'})
         ops.append({'op': 'decorate', 'i': 2, 'rebind': 1})
         for _k in range(length // 2):
-            o = cd.random_ops(rng, 1, cfg, 6, 'nobulk')[0]
+            o = cd.random_ops(rng, 1, cfg, 7, 'nobulk')[0]
             o['i'] = rng.choice([1, 2, 2])
             ops.append(o)
         run.jobs.append((cfg, ops, None))
@@ -550,11 +551,11 @@ def scenario_clone(run, nseq, length, backends=('plain', 'dictarch', 'file', 'di
         cfg = py_cfg(module, alg, rng.choice([1, 2, 3]), backend, km, purge=rng.random() < 0.25, ni=2)
         independent = backend in ('plain', 'dictarch')
         cfg['lockstep'] = independent and alg != 'rr'
-        pre = cd.random_ops(rng, rng.randint(0, length), cfg, 6, 'mixed')
+        pre = cd.random_ops(rng, rng.randint(0, length), cfg, 7, 'mixed')
         ops = list(pre)
         ops.append({'op': 'clone', 'i': 1, 'j': 2})
         for _k in range(length):
-            o = cd.random_ops(rng, 1, cfg, 6, 'mixed')[0]
+            o = cd.random_ops(rng, 1, cfg, 7, 'mixed')[0]
             if cfg['lockstep']:
                 o1 = dict(o); o1['i'] = 1
                 o2 = dict(o); o2['i'] = 2; o2['mirror'] = 1
@@ -575,7 +576,7 @@ def scenario_spellings(run, length, reps=1):
                     for _ in range(reps):
                         backend = rng.choice(['plain', 'dictarch', 'file'])
                         cfg = py_cfg(module, alg, ms, backend, ('str', True, False), purge=rng.random() < 0.5, how=how)
-                        ops = cd.random_ops(rng, length, cfg, 6, 'mixed')
+                        ops = cd.random_ops(rng, length, cfg, 7, 'setarch')
                         run.jobs.append((cfg, ops, None))
 
 
@@ -589,18 +590,19 @@ def scenario_unkeyable(run, nseq, length):
         for km in kms:
             for backend in ('plain', 'dictarch', 'dir'):
                 for _ in range(nseq):
-                    cfg = py_cfg('safe', alg, rng.choice([1, 2]), backend, km, purge=rng.random() < 0.3, unkey=True)
+                    cfg = py_cfg('safe', alg, rng.choice([1, 2]), backend, km, purge=rng.random() < 0.3,
+                                 unkey=rng.choice(['type', 'value']))
                     ops = []
-                    for o in cd.random_ops(rng, length, cfg, 8, 'mixed'):
+                    for o in cd.random_ops(rng, length, cfg, 9, 'mixed'):
                         if o['op'] == 'call' and rng.random() < 0.35:
-                            o = {'op': 'call', 'a': 9}
+                            o = {'op': 'call', 'a': 10}
                         ops.append(o)
                     run.jobs.append((cfg, ops, None))
 
 
 def check_C01(tier):
     run = CacheRun('C01', tier)
-    plan_common(run, 'C01', ALLALG, ops=ALL_OPS, args=[1, 2, 3, 4, 5, 7], narchs=(0, 1, 2), purges=(False, True),
+    plan_common(run, 'C01', ALLALG, ops=ALL_OPS, args=[1, 2, 3, 4, 5, 6, 8], narchs=(0, 1, 2), purges=(False, True),
                 safes=(False, True), maxsizes=(1, 2), depth_q=5, depth_t=7, sim_num=(8, 60), exh_depth=(3, 4),
                 exh_ops={'call', 'clear', 'dump', 'load', 'arch_off', 'arch_on'})
     t = tier == 'thorough'
@@ -612,7 +614,7 @@ def check_C01(tier):
 
 def check_C02(tier):
     run = CacheRun('C02', tier)
-    plan_common(run, 'C02', ALLALG, ops=ALL_OPS, args=[1, 2, 3, 4, 5], narchs=(0, 1), purges=(False, True),
+    plan_common(run, 'C02', ALLALG, ops=ALL_OPS, args=[1, 2, 3, 4, 5, 6], narchs=(0, 1), purges=(False, True),
                 safes=(False,), maxsizes=(1, 2), depth_q=5, depth_t=7, sim_num=(10, 80), exh_depth=(3, 4),
                 exh_ops={'call', 'clear', 'dump', 'arch_off', 'arch_on'})
     t = tier == 'thorough'
@@ -625,12 +627,12 @@ def check_C02(tier):
 def check_C05(tier):
     run = CacheRun('C05', tier)
     plan_common(run, 'C05', ALLALG, ops=['call', 'load', 'loadk', 'dump', 'clear', 'arch_off', 'arch_on'],
-                args=[1, 2, 3, 4, 7], narchs=(0, 1), purges=(False, True), safes=(False,), maxsizes=(1, 2),
-                depth_q=6, depth_t=8, sim_num=(12, 80), exh_depth=(4, 5), exh_ops={'call', 'load', 'dump', 'clear'})
+                args=[1, 2, 3, 4, 8], narchs=(0, 1), purges=(False, True), safes=(False,), maxsizes=(1, 2, 3),
+                depth_q=6, depth_t=8, sim_num=(12, 80), exh_depth=(4, 5), exh_ops={'call', 'load', 'dump', 'clear'}, exh_args={1, 2, 3, 4})
     t = tier == 'thorough'
     scenario_spellings(run, 30 if t else 20, reps=6 if t else 1)
-    scenario_random(run, BOUNDED, ['std', 'safe'], ['dictarch', 'file', 'dir', 'sql'], 1200 if t else 150,
-                    40 if t else 25, maxsizes=(1, 2, 3, 4))
+    scenario_random(run, BOUNDED, ['std', 'safe'], ['plain', 'dictarch', 'file', 'dir', 'sql'], 1500 if t else 250,
+                    40 if t else 30, maxsizes=(1, 2, 3, 4), nx=6, profile='setarch')
     return run.finish(assumptions=ASSUME)
 
 
@@ -638,8 +640,19 @@ def check_C06(tier):
     run = CacheRun('C06', tier)
     plan_common(run, 'C06', ['lfu', 'lru', 'mru', 'rr'],
                 ops=['call', 'clear', 'lookup', 'dump', 'arch_off', 'arch_on'],
-                args=[1, 2, 3, 4, 7], narchs=(0, 1), purges=(False,), maxsizes=(1, 2),
+                args=[1, 2, 3, 4, 8], narchs=(0, 1), purges=(False,), maxsizes=(1, 2, 3),
                 depth_q=7, depth_t=10)
+    # long call-only walks: the LRU queue compaction (more than 10*maxsize recorded uses) must be crossed
+    t = tier == 'thorough'
+    longs = []
+    for alg in ('lru', 'mru', 'lfu'):
+        for ms in (1, 2, 3):
+            for narch in (0, 1):
+                if alg != 'lru' and (ms != 2 or narch):
+                    continue
+                longs.append(base_constants(ALG=alg, MAXSIZE=ms, QMULT=10, ARGS={1, 2, 3, 4}, OPS={'call'}, NARCH=narch))
+    with ThreadPoolExecutor(max_workers=common.NCPU) as ex:
+        list(ex.map(lambda c: run.generate(c, 400 if t else 60, 45 + 12 * c['MAXSIZE']), longs))
     return run.finish(assumptions=ASSUME + ['entries that entered memory through a bulk load() have no recorded use; '
                                             'the policy clause is not judged while such entries are resident (C05 covers the bound)'])
 
@@ -647,17 +660,37 @@ def check_C06(tier):
 def check_C07(tier):
     run = CacheRun('C07', tier)
     plan_common(run, 'C07', ['no'] + BOUNDED, ops=['call', 'load', 'dump', 'dumpk', 'clear', 'arch_off', 'arch_on', 'set_archive'],
-                args=[1, 2, 3, 4, 7], narchs=(1, 2), purges=(False, True), safes=(False, True), maxsizes=(1, 2),
+                args=[1, 2, 3, 4, 8], narchs=(1, 2), purges=(False, True), safes=(False, True), maxsizes=(1, 2),
                 depth_q=5, depth_t=7, sim_num=(8, 60), exh_depth=(4, 5), exh_ops={'call', 'load', 'clear', 'arch_off', 'arch_on'})
     t = tier == 'thorough'
     scenario_random(run, ['no'] + BOUNDED, ['std', 'safe'], ['dictarch', 'file', 'dir', 'sql'], 1500 if t else 250,
-                    40 if t else 25)
-    return run.finish(assumptions=ASSUME)
+                    40 if t else 25, profile='setarch')
+    # focused walks: evictions interleaved with replacing the archive (evict -> reload -> f.archive(B) -> evict)
+    foc = []
+    for alg in BOUNDED:
+        for safe in (False, True):
+            foc.append(base_constants(ALG=alg, MAXSIZE=run.rng.choice([1, 2]), SAFE=safe, QMULT=10, ARGS={1, 2, 3},
+                                      OPS={'call', 'set_archive'}, NARCH=2))
+    with ThreadPoolExecutor(max_workers=common.NCPU) as ex:
+        list(ex.map(lambda c: run.generate(c, 150 if t else 30, 30), foc))
+    # fault injection: the archive write of an eviction / purge fails once; the victim must not be lost
+    rng = run.rng
+    for _ in range(1200 if t else 200):
+        alg = rng.choice(BOUNDED)      # (no_cache's load path clears without dumping: only reachable after a fault)
+        cfg = py_cfg(rng.choice(['std', 'safe']), alg, rng.choice([1, 2]), 'flaky', ('str', True, False),
+                     purge=rng.random() < 0.3)
+        ops = []
+        for o in cd.random_ops(rng, 30 if t else 22, cfg, 7, 'calls'):
+            if rng.random() < 0.2:
+                ops.append({'op': 'arm_fault'})
+            ops.append(o)
+        run.jobs.append((cfg, ops, None))
+    return run.finish(assumptions=ASSUME + ['fault injection: a one-shot OSError in the in-memory archive\'s write (update/__setitem__)'])
 
 
 def check_C15(tier):
     run = CacheRun('C15', tier)
-    plan_common(run, 'C15', ALLALG, ops=ALL_OPS, args=[1, 2, 3, 4, 7], narchs=(0, 1), purges=(False, True),
+    plan_common(run, 'C15', ALLALG, ops=ALL_OPS, args=[1, 2, 3, 4, 8], narchs=(0, 1), purges=(False, True),
                 safes=(False, True), maxsizes=(1, 2), depth_q=5, depth_t=7, sim_num=(8, 60), exh_depth=(3, 4),
                 exh_ops={'call', 'clear', 'load', 'dump', 'arch_off', 'arch_on'})
     t = tier == 'thorough'
@@ -670,8 +703,8 @@ def check_C15(tier):
 def check_C16(tier):
     run = CacheRun('C16', tier)
     plan_common(run, 'C16', ALLALG, ops=['call', 'load', 'dump', 'clear', 'lookup', 'arch_off', 'arch_on'],
-                args=[1, 2, 3, 7, 8], narchs=(0, 1), purges=(False, True), safes=(False, True), maxsizes=(1, 2),
-                depth_q=5, depth_t=7, sim_num=(8, 60), exh_depth=(4, 5), exh_args={1, 2, 7}, exh_ops={'call', 'clear', 'load'})
+                args=[1, 2, 3, 8, 9], narchs=(0, 1), purges=(False, True), safes=(False, True), maxsizes=(1, 2),
+                depth_q=5, depth_t=7, sim_num=(8, 60), exh_depth=(4, 5), exh_args={1, 2, 3, 8}, exh_ops={'call', 'clear'})
     t = tier == 'thorough'
     scenario_unkeyable(run, 4 if t else 1, 25 if t else 18)
     scenario_random(run, ALLALG, ['std', 'safe'], ['plain', 'dictarch', 'file', 'dir', 'direct-dict'],
@@ -683,7 +716,7 @@ def check_C16(tier):
 def check_C18(tier):
     run = CacheRun('C18', tier)
     plan_common(run, 'C18', ALLALG, ops=['call', 'lookup', 'key', 'clear', 'dump', 'load', 'info'],
-                args=[1, 2, 3, 4, 5, 7], narchs=(0, 1), purges=(False,), safes=(False, True), maxsizes=(1, 2),
+                args=[1, 2, 3, 5, 6, 8], narchs=(0, 1), purges=(False,), safes=(False, True), maxsizes=(1, 2),
                 depth_q=5, depth_t=7, sim_num=(8, 60), exh_depth=(4, 5), exh_ops={'call', 'lookup', 'clear'})
     t = tier == 'thorough'
     rng = run.rng
@@ -695,11 +728,11 @@ def check_C18(tier):
         km = rng.choice(KM_STD)
         if not compatible(backend, km, module):
             km = ('str', True, False)
-        cfg = py_cfg(module, alg, rng.choice([1, 2, 3]), backend, km, variant=rng.choice(['plain', 'ignore_y', 'ignore_1', 'tol0']))
+        cfg = py_cfg(module, alg, rng.choice([1, 2, 3]), backend, km, variant=rng.choice(['plain', 'ignore_y', 'ignore_1', 'tol0', 'tol1']))
         ops = [{'op': 'wrapped'}]
-        for o in cd.random_ops(rng, 30 if t else 22, cfg, 8, 'nobulk'):
+        for o in cd.random_ops(rng, 30 if t else 22, cfg, 9, 'nobulk'):
             if rng.random() < 0.35:
-                o = {'op': rng.choice(['lookup', 'key']), 'a': rng.randint(1, 8)}
+                o = {'op': rng.choice(['lookup', 'key']), 'a': rng.randint(1, 9)}
             ops.append(o)
         run.jobs.append((cfg, ops, None))
     return run.finish(assumptions=ASSUME)
